@@ -34,7 +34,7 @@ UTIL_FUNCS: Dict[str, str] = {"behaves_like_a_built_in_class": "bool", "is_built
 
 TY_NAMES = {"int": "(Builtin BInt)", "float": "(Builtin BFloat)", "str": "(Builtin BStr)", "bool": "(Builtin BBool)",
             "datetime": "(Builtin BDatetime)", "NoneType": "(Builtin BNoneType)"}
-ORIGIN_NAMES = {"Union": "OUnion", "Optional": "OOptional", "list": "OList", "set": "OSet", "tuple": "OTuple",
+ORIGIN_NAMES = {"Union": "OUnion", "Optional": "OOptional", "UnionType": "OUnionType", "list": "OList", "set": "OSet", "tuple": "OTuple",
                 "type": "OType", "Sequence": "OSeq"}
 EXCEPTIONS = ["TypeError", "ValueError", "IndexError", "AttributeError", "MissingContainedTypeOfContainer", "StopIteration"]
 COQ_TY = {"bool": "bool", "ty": "ty", "origin": "origin", "tys": "list ty", "origins": "list origin", "nat": "nat"}
